@@ -72,6 +72,8 @@ def build(q, world, quantifier="an", quantification=None, domain_wrap=None, shar
             return getattr(T(t[1]), t[2])(*t[3])
         if k == "lit":
             return list(t[1]) if isinstance(t[1], tuple) else t[1]
+        if k == "rawlit":
+            return t[1]
         raise ValueError(t)
 
     def C(c):
